@@ -128,6 +128,9 @@ def eval_case(case):
         elif op == 'sizeof':
             req = ('RSizeof', term, kwt)
             resp = I.run_sizeof(c, kw)
+        elif op == 'lazy':
+            req = ('RLazy', term, kwt, case['data'], case.get('start', 0), list(case['history']))
+            resp = I.run_lazy(c, kw, case['data'], case.get('start', 0), case['history'])
         else:
             return (None, 'op ' + op, None)
     except R.Unsupported as e:
@@ -161,6 +164,8 @@ def norm(resp):
         return ('ROkBuild', R.strip_private(resp[1]), resp[2])
     if resp[0] == 'ROkVal':
         return ('ROkVal', R.strip_private(resp[1]))
+    if resp[0] == 'ROkLazy':
+        return ('ROkLazy', resp[1], [(o[0], R.strip_private(o[1]), o[2]) if o[0] == 'LVal' else o for o in resp[2]])
     return resp
 
 
